@@ -73,6 +73,7 @@ def _n(tier, q, t):
 def _c16(run, drv, rng, tier):
     from . import props_c16, ties
     ties.tie_json(run, drv, rng, _n(tier, 25, 600))
+    ties.tie_json_text(run, drv, rng, _n(tier, 20, 400), _n(tier, 8, 120))
     props_c16.check(run, drv, rng, tier)
 
 
@@ -80,6 +81,7 @@ def _c20(run, drv, rng, tier):
     from . import props_c20, ties
     ties.tie_lint(run, drv, rng, _n(tier, 200, 5000))
     ties.tie_cli(run, drv, rng, _n(tier, 15, 300))
+    ties.lint_advisory_fixed(run)
     props_c20.check(run, drv, rng, tier)
 
 
@@ -138,6 +140,7 @@ def _c06(run, drv, rng, tier):
         props_c.check_basetype_grid(run, drv, rng, sc, True, ("-O2",), frac, "C06")
         props_c.check_basetype_grid(run, drv, rng, sc, False, ("-O2",), frac / 2, "C06")
         props_c.check_array_grid(run, drv, rng, sc, True, ("-O2",), frac, "C06")
+        props_c.check_detection(run, drv, rng, sc, ("-O2",))
         if tier == "thorough":
             props_c.check_basetype_grid(run, drv, rng, sc, True, ("-O0",), 1.0, "C06")
         from . import props_op
@@ -365,7 +368,7 @@ PROPS = {
     },
     "C16": {
         "modules": ["BpModel.Props.C16"],
-        "theorems": ["Bp.C16.C16_keys", "Bp.C16.C16_key_order", "Bp.C16.C16_faithful", "Bp.C16.C16_leaves"],
+        "theorems": ["Bp.C16.C16_keys", "Bp.C16.C16_key_order", "Bp.C16.C16_faithful", "Bp.C16.C16_leaves", "Bp.C16.C16_text_roundtrip_c", "Bp.C16.C16_text_roundtrip_py"],
         "explore": _c16,
         "correspondence": "json.loads (key order kept) of Python to_json()/to_dict() and of the C Json<Msg>() text vs the JSON value computed from the abstract schema",
         "rule": "width grids (every width 1..64 in every position), arrays incl. byte arrays and huge arrays, long field names, "
